@@ -65,3 +65,29 @@ CONTRACTS.append(
         ],
     )
 )
+
+
+# --------------------------------------------------------------------------------------------------------------
+# interpolate_defaults (cdd/docstring/utils/emit_utils.py): the step that moves "Defaults to X" from a description into the
+# entry's 'default'.  The ReST parser calls it several times for one parameter -- first on the raw, still wrapped ':param' text,
+# again when the ':type' line is known, and once more on the un-wrapped description -- so the LAST reading has to win:
+# whenever the description announces a default, the entry's default IS what extract_default read (unquoted), whatever an
+# earlier, provisional call had stored; when it announces none, the key is left as it was.
+MI = "cdd.docstring.utils.emit_utils"
+CONTRACTS.append(
+    Contract(
+        MI + ":interpolate_defaults#announced-default-wins",
+        src=MI + ":interpolate_defaults",
+        # the body of `if "doc" in _param:`
+        block=("doc, default = extract_default(", "if default is not None"),
+        probes={"D": "unquote(default)"},
+        params={"_param": {"doc": "str", "typ?": "opaque", "default?": "opaque"}, "default_search_announce": "opaque", "emit_default_doc": "bool"},
+        ensures=[
+            "implies(not is_none(default), present(_param, 'default') and same(field(_param, 'default'), D))",
+            "implies(is_none(default), present(_param, 'default') == present(old(_param), 'default'))",
+            "implies(is_none(default) and present(old(_param), 'default'), same(field(_param, 'default'), field(old(_param), 'default')))",
+            "present(_param, 'typ') == present(old(_param), 'typ')",
+        ],
+        pure_results={"extract_default": "opaque", "unquote": "opaque"},
+    )
+)
